@@ -39,6 +39,8 @@ func runC06(p *Program, r *Report) {
 	checkMadeProofIsFilled(p, r, "R06f", entries)
 	checkEmptyRootRestored(p, r, "R06h")
 	checkEmptyRootByGeometry(p, r, "R06i")
+	r.Rule("R06j", "EXISTENCE-TEST-IS-STRICT: every comparison of a row-0 position with the leaf count inside the reviewed existence test is strict (the deletion-undo decides with it whether a subtree climbed)")
+	checkExistenceTestStrict(p, r, "R06j")
 }
 
 // returnsUpdatedParam: result ri of fn has the slice type of parameter pi and
